@@ -98,6 +98,27 @@ def gen(rng, arch):
         elif r < 0.90 and scope is not None:
             nlab += 1; n = "%s.lc%d" % (scope, nlab)
             lines.append(".lc%d:" % nlab); syms[n] = (here, list(cur))
+        elif r < 0.93 and any(x.startswith("dfl") for x in syms):
+            # the same symbol and key asked for twice, the recorded value changing in between (a redefinition under another
+            # block): every answer is the value on record at that moment
+            n = rng.choice([x for x in syms if x.startswith("dfl")])
+            k = rng.choice(["ID", "BANK", "note"])
+            for rnd in (0, 1, 2):
+                val = dict(syms[n][1]).get(k) if [a for a, _ in syms[n][1]].count(k) <= 1 else None
+                if [a for a, _ in syms[n][1]].count(k) <= 1:
+                    lines.append('@db @string { "<" @getmeta %s, "%s" ">" }' % (n, k))
+                    probes.append(b"<" + (val or "").encode() + b">")
+                    here += len(probes[-1])
+                if rnd == 2:
+                    break
+                nv = {"ID": rng.choice(IDS), "BANK": rng.choice(BANKS), "note": "m%d" % rng.randrange(99)}[k]
+                pairs = [(k, nv)] + ([("kk", "vv")] if rng.random() < 0.5 else [])
+                if rnd == 1 and rng.random() < 0.4:
+                    lines.append("@endmeta"); cur = []
+                else:
+                    lines.append("@meta " + ", ".join('"%s" "%s"' % q for q in pairs)); cur = pairs
+                v = rng.randrange(0, 70000)
+                lines.append("@redefl %s, %d" % (n, v)); syms[n] = (v, list(cur))
         elif syms:
             n = rng.choice(list(syms))
             keys = [k for k, _ in syms[n][1]]
